@@ -118,6 +118,59 @@ impl ShortMessage for ForeignPanicky {
     }
 }
 
+/// Third-party factory whose own `from_bytes` refuses EVERYTHING ("values of this type are only
+/// made by its owner"). Nothing the crate provides on top of `from_bytes_unchecked` - named
+/// constructors, generic constructors, conversions, the encoders - may depend on the overridable
+/// `from_bytes`, so all of them must still work for this type.
+#[derive(Clone, Copy, PartialEq, Eq, Debug)]
+pub struct ForeignRefusing {
+    pub s: u8,
+    pub d1: U7,
+    pub d2: U7,
+}
+impl ShortMessage for ForeignRefusing {
+    fn status_byte(&self) -> u8 {
+        self.s
+    }
+    fn data_byte_1(&self) -> U7 {
+        self.d1
+    }
+    fn data_byte_2(&self) -> U7 {
+        self.d2
+    }
+}
+impl ShortMessageFactory for ForeignRefusing {
+    unsafe fn from_bytes_unchecked(b: (u8, U7, U7)) -> Self {
+        ForeignRefusing { s: b.0, d1: b.1, d2: b.2 }
+    }
+    fn from_bytes(_b: (u8, U7, U7)) -> Result<Self, FromBytesError> {
+        Err(RawShortMessage::from_bytes((0, U7::MIN, U7::MIN)).unwrap_err())
+    }
+}
+
+/// Third-party message that is a LIVE VIEW of something that changes: successive calls of
+/// `status_byte()` walk through a list of (valid) status bytes. Whatever the crate derives from
+/// such a message, no restricted integer it hands out may be out of range.
+pub struct ForeignFlaky {
+    pub statuses: [u8; 2],
+    pub d1: U7,
+    pub d2: U7,
+    pub calls: core::cell::Cell<u32>,
+}
+impl ShortMessage for ForeignFlaky {
+    fn status_byte(&self) -> u8 {
+        let n = self.calls.get();
+        self.calls.set(n + 1);
+        self.statuses[(n % 2) as usize]
+    }
+    fn data_byte_1(&self) -> U7 {
+        self.d1
+    }
+    fn data_byte_2(&self) -> U7 {
+        self.d2
+    }
+}
+
 /// Third-party implementor that overrides `to_bytes` (consistently) and stores the bytes packed.
 #[derive(Clone, Copy, PartialEq, Eq, Debug)]
 pub struct ForeignBytes(pub u32);
